@@ -39,6 +39,7 @@ func (sr *srcRenderer) kvName(n string) string {
 
 var rangeColl = map[string][2]string{ // kind -> variable, type
 	"slice": {"s", "[]int"}, "array": {"arr", "[3]int"}, "string": {"str", "string"}, "int": {"n", "int"}, "chan": {"ch", "chan int"},
+	"int0": {"n0", "int"}, "map1": {"m1", "map[int]int"},
 }
 
 const rangeProlog = `	s := append(make([]int, 0, 4), 10, 20, 30)
@@ -51,7 +52,8 @@ const rangeProlog = `	s := append(make([]int, 0, 4), 10, 20, 30)
 	close(ch)
 	kk, vv, rv := -1, -1, rune(-1)
 	w := [8]int{}
-	_, _, _, _, _, _, _, _, _ = s, arr, str, n, ch, kk, vv, rv, w
+	n0, m1 := 0, map[int]int{7: 70}
+	_, _, _, _, _, _, _, _, _, _, _ = s, arr, str, n, ch, kk, vv, rv, w, n0, m1
 `
 
 func (sr *srcRenderer) rangeStmt(m J, ind string) string {
